@@ -191,6 +191,31 @@ def value_table(g, facts, a, scope, module):
     items = [unwrap(i["p"]) for i in inner["items"] if i["keep"]] if inner["t"] == "seq" else [inner]
     tupled = inner["t"] == "seq" and len(items) > 1
     chars = [i for i in items if i["t"] == "set" and i["cs"][0] == "in" and i.get("max") == 1 and i.get("min") == 1]
+    lit_values = None
+    if not chars and len(items) <= 2:
+        # the character read by a parser of its own that yields a value per letter: `alt(('s'.value(A), 'm'.value(B), ..))`,
+        # possibly behind a named function
+        for it_ in items:
+            n_ = it_
+            mod_ = None
+            if n_["t"] == "ref" and not n_.get("extra"):
+                sb_ = single_body(g.deref(n_))
+                mod_ = tuple(facts.fns[n_["fn"]].module) if n_["fn"] in facts.fns else None
+                n_ = unwrap(sb_) if sb_ is not None else n_
+            if n_["t"] == "alt":
+                rows = []
+                for x_ in flat_alts(n_):
+                    x_ = unwrap(x_)
+                    if x_["t"] == "value" and unwrap(x_["p"])["t"] == "lit" and len(unwrap(x_["p"])["s"]) == 1 and x_.get("v") is not None:
+                        rows.append((unwrap(x_["p"])["s"], x_["v"]))
+                    else:
+                        rows = None
+                        break
+                if rows:
+                    lit_values = (it_, rows, mod_)
+                    chars = [dict(it_, cs=("in", frozenset(ch for ch, _ in rows)), one=True)]
+                    items = [chars[0] if i is it_ else i for i in items]
+                    break
     if len(chars) != 1 or len(items) > 2:
         return None
     cn = chars[0]
@@ -203,8 +228,15 @@ def value_table(g, facts, a, scope, module):
         if cn.get("vmap") is not None:
             vm = P.Probe(facts, None, cn.get("vmod") or module or ())
             vfn = vm.ev(cn["vmap"], {})
+        lit_tab = {}
+        if lit_values is not None:
+            pl = P.Probe(facts, None, lit_values[2] or module or ())
+            for ch_, vx_ in lit_values[1]:
+                if ch_ in lit_tab:
+                    probs.append("%r: listed twice" % ch_)
+                lit_tab.setdefault(ch_, pl.ev(vx_, {}))
         for ch in sorted(cn["cs"][1]):
-            v = ch
+            v = lit_tab.get(ch, ch)
             if vm is not None:
                 r = vm.apply(vfn, [ch])
                 if not (isinstance(r, tuple) and r and r[0] == "some"):
